@@ -55,6 +55,7 @@ var atoms = []ref.RuleAtom{
 	{Name: "or", Variant: "exclusive-empty-set"}, {Name: "or", Variant: "exclusive-ok-set"}, {Name: "or", Variant: "foreign-kind-set"}, {Name: "or", Variant: "foreign-rule-same-kind-set"}, {Name: "or", Variant: "huge-length-set"},
 	{Name: "minLength", Variant: "huge"}, {Name: "minItems", Variant: "huge"}, {Name: "precision", Variant: "huge"},
 	{Name: "type", Variant: "kind"}, {Name: "type", Variant: "any"}, {Name: "type", Variant: "ref"}, {Name: "type", Variant: "decimal"}, {Name: "type", Variant: "date"}, {Name: "type", Variant: "mixed"}, {Name: "type", Variant: "mixed-again"},
+	{Name: "type", Variant: "enum"}, {Name: "type", Variant: "enum-escaped"}, {Name: "type", Variant: "kind-escaped"},
 	{Name: "optional", Variant: "true"}, {Name: "optional", Variant: "false"}, {Name: "nullable", Variant: "true"}, {Name: "nullable", Variant: "false"},
 	{Name: "const", Variant: "true"}, {Name: "const", Variant: "false"}, {Name: "foo"},
 }
@@ -250,6 +251,16 @@ func build(c Case) (*ref.SNode, []ref.RuleAtom, bool) {
 					return nil, nil, false
 				}
 				r.Tok = `"` + kindName(c.Kind) + `"`
+			case "kind-escaped": // the kind name with one character written as an escape sequence
+				if c.Kind == ref.NKRef {
+					return nil, nil, false
+				}
+				kn := kindName(c.Kind)
+				r.Tok = `"` + kn[:1] + fmt.Sprintf(`\u%04x`, kn[1]) + kn[2:] + `"`
+			case "enum":
+				r.Tok = `"enum"`
+			case "enum-escaped":
+				r.Tok = `"\u0065num"`
 			case "any":
 				r.Tok = `"any"`
 			case "ref":
